@@ -307,6 +307,86 @@ func c05TickLines(tr *Trace, r *Rng, n int) {
 	}
 }
 
+// basic pools: the curve functions and the order generation of PoolBuyOrders / PoolSellOrders on real BasicPools
+func c05PoolLines(tr *Trace, r *Rng, n int) {
+	list := func(os []amm.Order) string {
+		ss := make([]string, len(os))
+		for i, o := range os {
+			ss[i] = c05Raw(o.GetPrice()) + ":" + o.GetAmount().String()
+		}
+		return strings.Join(ss, ",")
+	}
+	for k := 0; k < n; k++ {
+		prec := 2 + r.Intn(3)
+		lo := amm.TickToIndex(c05Dec("0.0000000001"), prec)
+		hi := amm.TickToIndex(c05Dec("10000000000"), prec)
+		lp := amm.TickFromIndex(lo+r.Intn(hi-lo+1), prec)
+		lowest, highest := liqtypes.PriceLimits(lp, sdkmath.LegacyNewDecWithPrec(1, 1), prec)
+		// pool price within a few percent of the last price; sometimes outside the limits (BuyAmountTo / SellAmountTo branch)
+		dev := int64(r.Intn(61) - 30)
+		switch r.Intn(6) {
+		case 0:
+			dev = int64(r.Intn(601) - 300)
+		case 1:
+			dev = 0
+		}
+		pp := lp.Mul(sdkmath.LegacyNewDec(1000 + dev)).QuoInt64(1000)
+		var ry sdkmath.Int
+		switch r.Intn(5) {
+		case 0:
+			ry = sdkmath.NewInt(int64(1 + r.Intn(3000))) // tiny reserves: orders below MinCoinAmount, early breaks
+		case 1:
+			ry = c05Pow10(20 + r.Intn(15)).MulRaw(int64(1 + r.Intn(9)))
+		default:
+			ry = c05Pow10(3 + r.Intn(12)).MulRaw(int64(1 + r.Intn(999))).AddRaw(int64(r.Intn(1000)))
+		}
+		rx := pp.MulInt(ry).TruncateInt().AddRaw(int64(r.Intn(3)))
+		if r.Chance(3) {
+			rx = sdkmath.ZeroInt()
+		}
+		if r.Chance(3) {
+			ry = sdkmath.ZeroInt()
+		}
+		pool := amm.NewBasicPool(rx, ry, sdkmath.OneInt())
+		// curve functions at prices around the pool price
+		for q := 0; q < 3; q++ {
+			price := amm.TickFromIndex(amm.TickToIndex(lp, prec)+r.Intn(81)-40, prec)
+			if r.Chance(10) {
+				price = price.Add(sdkmath.LegacyNewDecWithPrec(int64(r.Intn(3)-1), 18))
+			}
+			for _, fn := range []string{"price", "bo", "su", "bt", "st"} {
+				out := "panic"
+				try(func() {
+					switch fn {
+					case "price":
+						out = c05Raw(pool.Price())
+					case "bo":
+						out = pool.BuyAmountOver(price, true).String()
+					case "su":
+						out = pool.SellAmountUnder(price, true).String()
+					case "bt":
+						out = pool.BuyAmountTo(price).String()
+					case "st":
+						out = pool.SellAmountTo(price).String()
+					}
+				})
+				tr.Line("amm.bp", fn, rx.String(), ry.String(), c05Raw(price), out)
+			}
+		}
+		buys := amm.PoolBuyOrders(pool, amm.DefaultOrderer, lowest, highest, prec)
+		sells := amm.PoolSellOrders(pool, amm.DefaultOrderer, lowest, highest, prec)
+		switch {
+		case len(buys) == 0 && len(sells) == 0:
+			tr.Count("pool-orders:none")
+		case len(buys)+len(sells) < 20:
+			tr.Count("pool-orders:1-19")
+		default:
+			tr.Count("pool-orders:20+")
+		}
+		tr.Line("amm.pool", rx.String(), ry.String(), c05Raw(lowest), c05Raw(highest), strconv.Itoa(prec), list(buys), list(sells))
+	}
+}
+
 func c05OpMatch(tr *Trace, os []*c05Order, lp sdkmath.LegacyDec) {
 	snap := c05Snapshot(os)
 	var dir, outcome, mp, qcd = "0", "", "-", "-"
@@ -780,6 +860,7 @@ func TestC05(t *testing.T) {
 	}
 
 	c05TickLines(tr, rng, scale(3000, 60000))
+	c05PoolLines(tr, rng, scale(1500, 30000))
 
 	g := &c05Gen{rng: rng}
 	books := scale(40000, 600000)
